@@ -107,6 +107,7 @@ type Obligation struct {
 	Model   string
 	Raw     map[string]string
 	Inputs  []string // terms whose values are requested from the model
+	Needs   []string
 	File    string
 	Candidate bool // model comes from the ground (quantifier-free) weakening
 }
@@ -119,6 +120,8 @@ type Ctx struct {
 	decls []string
 	dset  map[string]bool
 	facts []string
+	ftags []string
+	curTag string
 	obs   []*Obligation
 	nfresh int
 	names map[string]int // obligation name de-duplication
@@ -162,6 +165,7 @@ func (c *Ctx) fact(f string) {
 		return
 	}
 	c.facts = append(c.facts, f)
+	c.ftags = append(c.ftags, c.curTag)
 }
 
 // guarded fact
@@ -462,6 +466,7 @@ func sortedKeys(m map[string]string) []string {
 // instantiated at the skolem constants of a quantified goal (E-matching cannot do this when the
 // hypothesis and the goal talk about different heap versions).
 type qhyp struct {
+	tag   string
 	vars  []Param
 	body  *Expr
 	trig  [][]*Expr
@@ -484,7 +489,7 @@ func (c *Ctx) noteHyp(e *Expr, ev *EvalCtx, reach string) {
 		}
 	case e.Op == "forall":
 		cp := *ev
-		c.qhyps = append(c.qhyps, qhyp{vars: e.Vars, body: e.Args[0], ev: &cp, reach: reach})
+		c.qhyps = append(c.qhyps, qhyp{tag: c.curTag, vars: e.Vars, body: e.Args[0], ev: &cp, reach: reach})
 	case e.Op == "binary" && e.Name == "==>" && e.Args[0].Op == "forall":
 		fa := e.Args[0]
 		n := ev
@@ -566,7 +571,10 @@ func (c *Ctx) skolemiseForall(e *Expr, ev *EvalCtx) (string, error) {
 		if err != nil {
 			continue
 		}
+		saved := c.curTag
+		c.curTag = h.tag
 		c.assume(h.reach, ht)
+		c.curTag = saved
 	}
 	return t, nil
 }
